@@ -341,7 +341,7 @@ func (sc *StorageCar) Put(ctx context.Context, keyStr string, data []byte) error
 	}
 	n := uint64(w.Position())
 	if err := util.LdWrite(w, keyCid.Bytes(), data); err != nil {
-		sc.abandonSection(n)
+		sc.abandonSection(w, n)
 		return err
 	}
 	idx.InsertNoReplace(keyCid, n)
@@ -353,7 +353,11 @@ func (sc *StorageCar) Put(ctx context.Context, keyStr string, data []byte) error
 // offset n failed part-way. It drops the partial section so that it neither
 // precedes the next section nor is left behind at the end of the CAR. Where
 // that is not possible the CAR is unusable and is closed.
-func (sc *StorageCar) abandonSection(n uint64) {
+func (sc *StorageCar) abandonSection(w positionedWriter, n uint64) {
+	if uint64(w.Position()) == n {
+		// Nothing was written.
+		return
+	}
 	if sc.dataWriter == nil {
 		// A plain stream cannot be rewound.
 		sc.closed = true
